@@ -96,10 +96,12 @@ def check(run, prog, tier):
         if not in_loop:
             # (ii) every path to success passes this test (the name test may be skipped only when no name was saved: `len > 0` false)
             skip_edges = set()
+            # a local that sizes an fread() (the saved length of the name), whatever it is called
+            read_len_ids = {x.get("id") for b3, i3, n3 in lb.calls("fread") for a in n3.get("args", [])[1:3] for x in walk(a) if x.get("k") == "Ref" and x.get("d") == "local"}
             if kind == "name":
                 for b2 in lb.reachable():
                     c2 = lb.branch_cond(b2)
-                    if c2 is not None and atom_of(c2, True)[0] == ">" and strip(atom_of(c2, True)[1]).get("n") == "len" and const_val(atom_of(c2, True)[2]) == 0 and lb.dominates(b2, bid):
+                    if c2 is not None and atom_of(c2, True)[0] == ">" and strip(atom_of(c2, True)[1]).get("id") in read_len_ids and strip(atom_of(c2, True)[1]).get("id") is not None and const_val(atom_of(c2, True)[2]) == 0 and lb.dominates(b2, bid):
                         skip_edges.add((b2, lb.blocks[b2].succ[1]))
             p = lb.reach_avoiding([lb.entry], lambda blk: blk.id == R, avoid_blocks=[bid], avoid_edges=skip_edges)
             if p is not None:
